@@ -199,8 +199,10 @@ struct World {
   std::unique_ptr<trompeloeil::expectation> own_exp[MAXTH + 1];
   // an expectation on a thread's private mock handed over to whichever thread takes it first (T_ADOPT, or the owner when
   // it destroys the mock): release of an expectation by one thread while another destroys the mock object
-  std::atomic<trompeloeil::expectation*> orphan[MAXTH + 1] = {};
-  int orphan_id[MAXTH + 1] = {};
+  // (the expectation travels together with its id in one heap node: a separate id array would be written by the owner's
+  // next publication while the adopter of the previous one still reads it - a race of the harness, not of the library)
+  struct Orphan { trompeloeil::expectation* e; int id; };
+  std::atomic<Orphan*> orphan[MAXTH + 1] = {};
   // shared deathwatched objects: created (with two requirements each) before the workers start; object i is destroyed
   // by thread i % n, its requirement j is released by thread (i + j + 1) % n - so a release can overlap the death
   trompeloeil::deathwatched<Dw>* sdw[2] = {};
@@ -546,7 +548,8 @@ static void run_op(int tid, int opi, const Op& o, std::vector<int>& slot_id, int
         int x = (tid + 1 + o.a % (Wd->nthreads > 1 ? Wd->nthreads - 1 : 1)) % Wd->nthreads;
         auto* p = Wd->orphan[x].exchange(nullptr, std::memory_order_acq_rel);
         if (!p) { res = "skip"; break; }
-        ev(E_DESTROY, Wd->orphan_id[x]);
+        ev(E_DESTROY, p->id);
+        delete p->e;
         delete p;
         res = "adopted";
         break;
@@ -582,8 +585,7 @@ static void run_op(int tid, int opi, const Op& o, std::vector<int>& slot_id, int
           }
           ownexp_id = id;
           if ((o.a / 8) % 2) {   // hand the expectation over: published with release order, taken with an atomic exchange
-            Wd->orphan_id[oi] = id;
-            Wd->orphan[oi].store(Wd->own_exp[oi].release(), std::memory_order_release);
+            Wd->orphan[oi].store(new World::Orphan{Wd->own_exp[oi].release(), id}, std::memory_order_release);
           }
           res = "own-created";
         } else {
@@ -592,7 +594,7 @@ static void run_op(int tid, int opi, const Op& o, std::vector<int>& slot_id, int
           delete Wd->own_mock[oi];
           Wd->own_mock[oi] = nullptr;
           if (Wd->own_exp[oi]) { ev(E_DESTROY, ownexp_id); Wd->own_exp[oi].reset(); }
-          else if (auto* p = Wd->orphan[oi].exchange(nullptr, std::memory_order_acq_rel)) { ev(E_DESTROY, ownexp_id); delete p; }
+          else if (auto* p = Wd->orphan[oi].exchange(nullptr, std::memory_order_acq_rel)) { ev(E_DESTROY, ownexp_id); delete p->e; delete p; }
           ownexp_id = -1;
           res += "own-destroyed";
         }
@@ -780,7 +782,7 @@ static RunResult run_program(const Program& p, bool sched_mode) {
     for (int j = 0; j < 2; ++j) {
       OpRec r;
       r.tid = -1; r.opi = 50 + 2 * i + j; r.op = Op{T_WATCH, 0, 0};
-      int id = 8000 + 2 * i + j;
+      int id = 20000 + 2 * i + j;   // outside every thread's id range (thread t: 1000 * (t + 1) + op index, prologue: 9000 +); 8000 + collided with thread 7
       r.events.push_back(Ev{E_MONLINK, -1, r.opi, id, MAXTH + 1 + i, 0, 0, 0, 0});
       shim::tickets = &r.tickets;
       auto& obj = *w.sdw[i];
